@@ -169,6 +169,27 @@ func (c c10) sendParts(w *world.World, s *world.Session) {
 	send("keyid-dropped", t.TokenType, s.Type, s.Iss, t.Nonce, t.Context, nil, a)
 	send("context-dropped", t.TokenType, s.Type, s.Iss, t.Nonce, nil, t.KeyID, a)
 	send("all-empty", t.TokenType, s.Type, s.Iss, nil, nil, nil, nil)
+	// the token presented under other token_type values: all 65 535 of them for type 5 on some
+	// runs, a boundary-biased sample otherwise
+	if s.Type == 5 && w.Plan.Index%32 == 1 {
+		for tt := 0; tt < 1<<16; tt++ {
+			if uint16(tt) != t.TokenType {
+				send("type-field-sweep", uint16(tt), s.Type, s.Iss, t.Nonce, t.Context, t.KeyID, t.Authenticator)
+			}
+		}
+	} else {
+		h := uint64(w.Plan.Seed)
+		for i := 0; i < 300; i++ {
+			h = core.MixI(h, i)
+			tt := uint16(h)
+			if i < 40 {
+				tt = []uint16{0, 1, 2, 3, 4, 5, 6, 0xff, 0x100, 0x105, 0x500, 0x501, 0x8005, 0xf005, 0xff05, 0xffff, 0xfffe, 0x7fff, 0x8000, 0x0101}[i%20] ^ uint16(i/20)
+			}
+			if tt != t.TokenType {
+				send("type-field-sample", tt, s.Type, s.Iss, t.Nonce, t.Context, t.KeyID, t.Authenticator)
+			}
+		}
+	}
 	// the same bytes with the boundary between key id and authenticator moved: the carried
 	// authenticator is then not the evaluation of the carried fields
 	ka := append(append([]byte(nil), t.KeyID...), a...)
